@@ -1007,4 +1007,147 @@ theorem core_realizes (I : Inst) (v : Val) (raws built : List F) (hraw : coreRaw
   subst this
   exact ⟨steps, hlen, hdec, h1⟩
 
+/-! ### values identify stack variables -/
+
+theorem lookup_mem {β} : ∀ (l : List (String × β)) (k : String) (b : β), l.lookup k = some b → (k, b) ∈ l
+  | [], k, b, h => by simp [List.lookup] at h
+  | (k', b') :: l, k, b, h => by
+    simp only [List.lookup] at h
+    by_cases hk : k = k'
+    · subst hk; simp at h; subst h; simp
+    · have : (k == k') = false := by simp [hk]
+      simp only [this] at h
+      exact List.mem_cons_of_mem _ (lookup_mem l k b h)
+
+theorem inj_on_of_nodup_map {α β} (f : α → β) : ∀ (l : List α), (l.map f).Nodup → ∀ x ∈ l, ∀ y ∈ l, f x = f y → x = y
+  | [], _, x, hx, _, _, _ => by simp at hx
+  | a :: l, h, x, hx, y, hy, hxy => by
+    simp only [List.map_cons, List.nodup_cons, List.mem_map, not_exists, not_and] at h
+    rcases List.mem_cons.mp hx with hxa | hxl
+    · rcases List.mem_cons.mp hy with hya | hyl
+      · rw [hxa, hya]
+      · subst hxa; exact absurd hxy.symm (h.1 y hyl)
+    · rcases List.mem_cons.mp hy with hya | hyl
+      · subst hya; exact absurd hxy (h.1 x hxl)
+      · exact inj_on_of_nodup_map f l h.2 x hxl y hyl hxy
+
+/-- **values identify stack variables** when the terms of the table take pairwise different values and, if
+    constants can be pushed, values outside the range of pushed constants -/
+theorem inj_of_nodup (I : Inst) (v : Val) (hnd : (I.term.map fun p => evalI v p.2).Nodup) (hok : svsOk I = true)
+    (hsep : hasPushBasic I = true → ∀ p ∈ I.term, evalI v p.2 < 0 ∨ I.intLimit ≤ evalI v p.2) :
+    ∀ x y, Dom I x → Dom I y → valOf I v x = valOf I v y → x = y := by
+  simp only [svsOk, List.all_eq_true] at hok
+  -- shape of the members of the domain
+  have shape : ∀ x, Dom I x → (∃ s t, x = .var s ∧ I.term.lookup s = some t) ∨
+      (∃ n, x = .num n ∧ hasPushBasic I = true ∧ 0 ≤ n ∧ n < I.intLimit) := by
+    intro x hx
+    rcases hx with hx | ⟨⟨ins, hm, hk⟩, n, rfl, h0, hl⟩
+    · have := hok x hx
+      cases x with
+      | var s =>
+        simp only at this
+        cases hl : I.term.lookup s with
+        | none => simp [hl] at this
+        | some t => exact Or.inl ⟨s, t, rfl, hl⟩
+      | num n =>
+        simp only [Bool.and_eq_true, decide_eq_true_eq] at this
+        exact Or.inr ⟨n, rfl, this.1.1, this.1.2, this.2⟩
+    · refine Or.inr ⟨n, rfl, ?_, h0, hl⟩
+      simp only [hasPushBasic, List.any_eq_true]
+      exact ⟨ins, hm, by simp [hk]⟩
+  intro x y hx hy hxy
+  rcases shape x hx with ⟨s, t, rfl, hs⟩ | ⟨n, rfl, hpb, h0, hl⟩ <;>
+    rcases shape y hy with ⟨s', t', rfl, hs'⟩ | ⟨n', rfl, hpb', h0', hl'⟩
+  · simp only [valOf, svF, hs, hs'] at hxy
+    have := inj_on_of_nodup_map (fun p : String × F => evalI v p.2) I.term hnd (s, t) (lookup_mem _ _ _ hs)
+      (s', t') (lookup_mem _ _ _ hs') hxy
+    simp at this; rw [this.1]
+  · simp only [valOf, svF, hs, evalI] at hxy
+    have := hsep hpb' (s, t) (lookup_mem _ _ _ hs)
+    simp only at this; omega
+  · simp only [valOf, svF, hs', evalI] at hxy
+    have := hsep hpb (s', t') (lookup_mem _ _ _ hs')
+    simp only at this; omega
+  · simp only [valOf, svF, evalI] at hxy
+    rw [hxy]
+
+theorem pairwiseDistinct_nodup : ∀ l : List Int, pairwiseDistinct l = true → l.Nodup
+  | [], _ => List.nodup_nil
+  | a :: l, h => by
+    simp only [pairwiseDistinct, Bool.and_eq_true, Bool.not_eq_true'] at h
+    refine List.nodup_cons.mpr ⟨?_, pairwiseDistinct_nodup l h.2⟩
+    intro hm
+    have : l.contains a = true := by simpa using hm
+    rw [this] at h; cases h.1
+
+theorem evalIs_map (v : Val) : ∀ l : List F, evalIs v l = l.map (evalI v)
+  | [] => rfl
+  | a :: l => by simp [evalIs, evalIs_map v l]
+
+theorem nodup_of_distinct (I : Inst) (v : Val) (h : evalB v (distinctRaw I) = true) :
+    (I.term.map fun p => evalI v p.2).Nodup := by
+  simp only [distinctRaw, evalB] at h
+  have := pairwiseDistinct_nodup _ h
+  rw [evalIs_map, List.map_map] at this
+  exact this
+
+theorem values_of_initVars (I : Inst) (v : Val) (initial : Int) (hint : I.term.all (fun p => !p.2.isBoolSorted) = true)
+    (h : ∀ f ∈ initVarsRaw I initial, evalB v f = true) :
+    ∀ i (hi : i < I.term.length), evalI v (I.term[i]).2 = initial + i := by
+  intro i hi
+  have hm : (I.term[i], i) ∈ I.term.zipIdx := by rw [List.mem_zipIdx_iff_getElem?]; simp [hi]
+  have := h (.conn .eq [(I.term[i]).2, .num (initial + i)]) (by
+    simp only [initVarsRaw, List.mem_map]; exact ⟨(I.term[i], i), hm, rfl⟩)
+  simp only [List.all_eq_true, Bool.not_eq_true'] at hint
+  have hb := hint _ (List.getElem_mem hi)
+  simpa [evalB, hb, evalI] using this
+
+theorem nodup_of_values (l : List (String × F)) (v : Val) (initial : Int)
+    (h : ∀ i (hi : i < l.length), evalI v (l[i]).2 = initial + i) : (l.map fun p => evalI v p.2).Nodup := by
+  unfold List.Nodup
+  rw [List.pairwise_iff_getElem]
+  intro i j hi hj hij
+  simp only [List.length_map] at hi hj
+  simp only [List.getElem_map]
+  rw [h i hi, h j hj]; omega
+
+/-- uninterpreted term encodings (no basic PUSH): the `distinct` constraint makes values identify stack variables -/
+theorem inj_uf (I : Inst) (v : Val) (h : evalB v (distinctRaw I) = true) (hok : svsOk I = true)
+    (hpb : hasPushBasic I = false) :
+    ∀ x y, Dom I x → Dom I y → valOf I v x = valOf I v y → x = y :=
+  inj_of_nodup I v (nodup_of_distinct I v h) hok (by intro h'; rw [hpb] at h'; cases h')
+
+/-- `-term-encoding stack_vars`: the initialisation constraints make values identify stack variables -/
+theorem inj_stackVars (I : Inst) (v : Val) (initial : Int) (hint : I.term.all (fun p => !p.2.isBoolSorted) = true)
+    (h : ∀ f ∈ initVarsRaw I initial, evalB v f = true) (hok : svsOk I = true)
+    (hinit : hasPushBasic I = true → I.intLimit ≤ initial) :
+    ∀ x y, Dom I x → Dom I y → valOf I v x = valOf I v y → x = y := by
+  have hv := values_of_initVars I v initial hint h
+  refine inj_of_nodup I v (nodup_of_values I.term v initial hv) hok ?_
+  intro hpb p hp
+  obtain ⟨i, hi, rfl⟩ := List.getElem_of_mem hp
+  have := hv i hi
+  have := hinit hpb
+  right; omega
+
+theorem inj_int (I : Inst) (v : Val) (hdata : intTermsOk I = true) (hok : svsOk I = true) :
+    ∀ x y, Dom I x → Dom I y → valOf I v x = valOf I v y → x = y := by
+  simp only [intTermsOk, Bool.and_eq_true, List.all_eq_true, Bool.or_eq_true, Bool.not_eq_true'] at hdata
+  obtain ⟨⟨hnum, hpd⟩, hsep⟩ := hdata
+  have hval : ∀ p ∈ I.term, evalI v p.2 = (match p.2 with | .num k => k | _ => 0) := by
+    intro p hp
+    have := hnum p hp
+    cases hp2 : p.2 <;> simp [hp2, evalI] at this ⊢
+  have hmap : (I.term.map fun p => evalI v p.2) = I.term.map fun p => (match p.2 with | .num k => k | _ => 0) :=
+    List.map_congr_left hval
+  refine inj_of_nodup I v (by rw [hmap]; exact pairwiseDistinct_nodup _ hpd) hok ?_
+  intro hpb p hp
+  rcases hsep with hs | hs
+  · rw [hpb] at hs; cases hs
+  · have := hs p hp
+    have hv := hval p hp
+    cases hp2 : p.2 with
+    | num k => simp [hp2] at this; right; simp [evalI]; exact this
+    | _ => simp [hp2] at this
+
 end GasolVerif.Enc
